@@ -720,9 +720,12 @@ func c20Execute(t *testing.T, r *verifkit.Run, cli *clientv3.Client, ns string, 
 				}
 			}
 			if ph == "failed_reload" {
-				// outside the statement's fault model (a reload Get error): observed, not judged
-				r.Count("observed_divergence_after_failed_reload_"+router, 1)
-				r.Note("failed_reload_observation_"+router, map[string]any{"key": first.Key, "etcd_owner": first.Etcd, "router_owner": first.Router, "last_change": first.Last, "plan": plan})
+				// A reload Get that fails during a reconnect is part of "watch reconnects": since the routers
+				// resume the watch from the last good revision (fix dd3283d) the table must still converge once
+				// changes stop. (Before that fix this was only recorded as an observation.)
+				r.Count("divergence_after_failed_reload_"+router, 1)
+				r.Violation(router+"_router_stale_after_failed_reload", fmt.Sprintf("%s router, changes stopped and sentinel shown, but after a reconnect whose reload Get failed key %q is owner=%q in etcd and %q in the router; last change: %s %s in phase %s of round %d",
+					router, first.Key, first.Etcd, first.Router, first.Last.Kind, first.Last.Val, first.Last.Phase, first.Last.Round), replay)
 				continue
 			}
 			var class string
